@@ -2372,6 +2372,7 @@ class Table(Vector):
 		# --- 2. Prepare metadata columns ---
 		names       = []
 		attr_names  = []
+		accessor_by_idx = {i: name for name, i in self._fresh_column_map().items()}
 		dtypes      = []
 		nullables   = []
 		null_pcts   = []
@@ -2387,16 +2388,8 @@ class Table(Vector):
 			# Original name
 			names.append(col_name)
 
-			# Sanitized attribute name with dot prefix
-			if col_name is not None:
-				base = _sanitize_user_name(col_name)
-				if base is None:
-					attr = f".col{idx}_"
-				else:
-					attr = f".{base}"
-			else:
-				attr = f".col{idx}_"
-			attr_names.append(attr)
+			# The accessor this column really answers to (a repeated name carries its index suffix), with dot prefix
+			attr_names.append("." + accessor_by_idx.get(idx, f"col{idx}_"))
 
 			# Dtype and nullable from schema(), if available
 			schema = None
